@@ -245,11 +245,12 @@ def _accept_inv():
     return True
 
 
-def _one_admission_at_a_time(team_names, event_thread, event_sync, thread):
+def _one_admission_at_a_time(team_names, event_thread, event_sync, thread, connection):
     """C20: each accepted connection gets its own seat thread working on the SHARED seat table and
     barrier; the main thread then waits for that thread's verdict before it accepts the next
     connection, and re-arms the verdict flag -- so at most one admission decides at any time."""
-    return conj(thread.team_names is team_names, thread.event_thread is event_thread,
+    return conj(thread.connection_socket is connection,
+                thread.team_names is team_names, thread.event_thread is event_thread,
                 thread.event_sync is event_sync, thread.ghost_started,
                 event_thread.ops == ['wait', 'clear'])
 
